@@ -631,6 +631,11 @@ func (vc *VC) structTargets(t types.Type, ref string) []modTarget {
 func (vc *VC) exprTargets(env *Env, e Expr, text string) []modTarget {
 	switch x := e.(type) {
 	case *EIdent:
+		if gf, ok := vc.P.spec.GhostFields[x.Name]; ok {
+			// a ghost field name alone: the field of every object
+			_, sortName := env.resolveType(gf.Sort)
+			return []modTarget{{"G_" + x.Name, "(Array Int " + sortName + ")", ""}}
+		}
 		if ty, ok := vc.P.spec.GhostVars[x.Name]; ok {
 			_, sortName := env.resolveType(ty)
 			return []modTarget{{"G_" + x.Name, sortName, ""}}
